@@ -12,7 +12,7 @@ import common
 import grammar as G
 import lit
 
-CLASSES_C04 = {1: 'double_close', 2: 'pct_at_end', 3: 'nodemult_sym'}
+CLASSES_C04 = {1: 'double_close'}
 
 REPO_TEST_STRINGS = [
     "{[#PMA][#PEO][#PMA]}", "{[#PMA]=[#PEO]$[#PMA]}", "{[#PMA;q=1]=[#PEO]$[#PMA]}", "{[#PMA]([#PEO][#PEO])[#PMA]}",
@@ -130,7 +130,7 @@ class C04(common.Prop):
 
     def corpus(self, ctx):
         known = common.load_known_findings()
-        out = [dict(f['witness']) for f in known.get('findings', []) if f['property'] == self.id]
+        out = [dict(f['witness']) for f in known.get('findings', []) + known.get('fixed', []) if f['property'] == self.id]
         out += [raw_case(s, 'repo-tests') for s in REPO_TEST_STRINGS]
         return out
 
